@@ -165,6 +165,42 @@ func (w *valWorld) add(opI, keyI int) (henv.Result, error) {
 	return r, nil
 }
 
+// addBatch: the admin submits two validator additions in one batch (MsgExecuteMessages, both inner
+// messages signed by the module authority). The second message sees what the first one did; the
+// batch is all-or-nothing.
+func (w *valWorld) addBatch(op1, key1, op2, key2 int) error {
+	m1, _ := opchildtypes.NewMsgAddValidator(fmt.Sprintf("m%d", op1), w.l2.Authority, w.ops[op1].String(), w.keys[key1].PubKey())
+	m2, _ := opchildtypes.NewMsgAddValidator(fmt.Sprintf("m%d", op2), w.l2.Authority, w.ops[op2].String(), w.keys[key2].PubKey())
+	msg, err := opchildtypes.NewMsgExecuteMessages(w.admin.Str, []sdk.Msg{m1, m2})
+	if err != nil {
+		return err
+	}
+	o1, o2 := string(w.ops[op1]), string(w.ops[op2])
+	_, e1 := w.keyOf[o1]
+	want1 := !e1 && !w.keyInUse(key1) && uint32(w.storedCount()) < w.maxVals
+	want2 := false
+	if want1 {
+		w.keyOf[o1] = key1 // as the second message sees the state
+		_, e2 := w.keyOf[o2]
+		want2 = !e2 && !w.keyInUse(key2) && uint32(w.storedCount()) < w.maxVals
+		delete(w.keyOf, o1)
+	}
+	r := w.l2.Deliver(msg)
+	w.logf("  batch[add(op%d,key%d), add(op%d,key%d)] -> %v", op1, key1, op2, key2, r.Err)
+	for _, tname := range []string{fmt.Sprintf("op%d", op1), fmt.Sprintf("key%d", key1), fmt.Sprintf("op%d", op2), fmt.Sprintf("key%d", key2)} {
+		w.touched[tname]++
+	}
+	w.blockOps++
+	if want := want1 && want2; r.OK() != want {
+		return fmt.Errorf("batch[add(op%d,key%d), add(op%d,key%d)]: accepted=%v, expected %v (first alone acceptable=%v, second after the first=%v; stored %d of max %d): %v", op1, key1, op2, key2, r.OK(), want, want1, want2, w.storedCount(), w.maxVals, r.Err)
+	}
+	if r.OK() {
+		w.keyOf[o1], w.pending[o1] = key1, key1
+		w.keyOf[o2], w.pending[o2] = key2, key2
+	}
+	return nil
+}
+
 func (w *valWorld) remove(opI int) (henv.Result, bool, error) {
 	op := string(w.ops[opI])
 	_, exists := w.keyOf[op]
@@ -413,7 +449,11 @@ func (w *valWorld) runBlock(rt *rapid.T) error {
 	}
 	n := rapid.IntRange(0, 4).Draw(rt, "nops")
 	for i := 0; i < n; i++ {
-		switch drawWeighted(rt, "vop", []weighted{{"add", 6}, {"remove", 5}, {"max", 1}, {"hist", 1}}) {
+		switch drawWeighted(rt, "vop", []weighted{{"add", 6}, {"remove", 5}, {"max", 1}, {"hist", 1}, {"add-batch", 1}}) {
+		case "add-batch":
+			if err := w.addBatch(rapid.IntRange(0, nValOps-1).Draw(rt, "op1"), rapid.IntRange(0, nValKeys-1).Draw(rt, "key1"), rapid.IntRange(0, nValOps-1).Draw(rt, "op2"), rapid.IntRange(0, nValKeys-1).Draw(rt, "key2")); err != nil {
+				return err
+			}
 		case "add":
 			if _, err := w.add(rapid.IntRange(0, nValOps-1).Draw(rt, "op"), rapid.IntRange(0, nValKeys-1).Draw(rt, "key")); err != nil {
 				return err
